@@ -165,6 +165,8 @@ func c07Gen(r *Rng, tier string, idx int) (string, func() string) {
 		return c07PDCase(r, []string{"ljh22", "ljh3"}, true)
 	case idx >= 5 && idx <= 12:
 		return c07ABCase(r, tier, idx-4, f)
+	case idx == 13 || idx == 14 || idx == 15:
+		return c07PUBCase(r, idx-12)
 	}
 	// Flush/Close with the disk stalled for SECONDS (longer than any plausible give-up timeout).  Each
 	// sits in a different worker chunk of the parent (main.go splits the index range over 12 workers), so
@@ -177,6 +179,8 @@ func c07Gen(r *Rng, tier string, idx int) (string, func() string) {
 		return c07WRCase(r, []string{"LJH22", "LJH3", "OFF"}[idx/30-1], false, f, 3000)
 	}
 	switch c := r.Intn(1000); {
+	case c >= 940:
+		return c07PUBCase(r, 0)
 	case c < 25:
 		return c07WRCase(r, []string{"LJH22", "LJH3", "OFF"}[r.Intn(3)], false, f, 0)
 	case c < 30:
@@ -1261,6 +1265,179 @@ func c07PDCase(r *Rng, writers []string, hot bool) (string, func() string) {
 			if refFiles[w] != nil {
 				refFiles[w].Close()
 			}
+		}
+		var sb strings.Builder
+		fmt.Fprintf(&sb, "D %d", len(writers))
+		for _, w := range writers {
+			fmt.Fprintf(&sb, " %s T %d %s", w, len(toks[w]), strings.Join(toks[w], " "))
+		}
+		return sb.String()
+	}
+}
+
+// ---------------------------------------------------------------------------------------------
+// PUB: the real DataPublisher (PublishData / Flush / SetPause / Remove*) with real writers on regular
+// files.  No stall is needed: the file is read IMMEDIATELY after every Flush / SetPause / Remove* return
+// (never waiting for the writers' 3 s ticker) and must then hold everything accepted so far.
+
+type c07Pub struct {
+	dp    *dastard.DataPublisher
+	paths map[string]string
+}
+
+func newC07Pub(writers []string, tag string) *c07Pub {
+	c07PipeSeq++
+	p := &c07Pub{dp: &dastard.DataPublisher{}, paths: map[string]string{}}
+	for _, w := range writers {
+		path := filepath.Join(c07Dir(), fmt.Sprintf("pub%s_%d.%s", tag, c07PipeSeq, w))
+		os.Remove(path)
+		p.paths[w] = path
+		switch w {
+		case "ljh22":
+			p.dp.SetLJH22(0, c07PDnpre, c07PDnsamp, 1, 1e-5, c07T0, 1, 1, 1, 1, 0, 0, 0, path, "src", "chan0", 0, dastard.Pixel{})
+		case "ljh3":
+			p.dp.SetLJH3(0, 1e-5, 1, 1, 1, 0, path)
+		case "off":
+			pr := mat.NewDense(2, c07PDnsamp, []float64{1, 0, 0, 0, 0, 1, 0, 0})
+			ba := mat.NewDense(c07PDnsamp, 2, []float64{1, 0, 0, 1, 0, 0, 0, 0})
+			p.dp.SetOFF(0, c07PDnpre, c07PDnsamp, 1, 1e-5, c07T0, 1, 1, 1, 1, 0, 0, 0, path, "src", "chan0", 0, pr, ba, "m", dastard.Pixel{})
+			p.dp.OFF.CreationInfo.CreationTime = c07T0
+		}
+	}
+	return p
+}
+func (p *c07Pub) nwritten(w string) int {
+	switch w {
+	case "ljh22":
+		return p.dp.LJH22.RecordsWritten
+	case "ljh3":
+		return p.dp.LJH3.RecordsWritten
+	}
+	return p.dp.OFF.RecordsWritten()
+}
+func (p *c07Pub) remove(w string) {
+	switch w {
+	case "ljh22":
+		p.dp.RemoveLJH22()
+	case "ljh3":
+		p.dp.RemoveLJH3()
+	default:
+		p.dp.RemoveOFF()
+	}
+}
+func (p *c07Pub) read(w string) []byte {
+	b, _ := os.ReadFile(p.paths[w])
+	return b
+}
+func c07PubRecord(i int) dastard.VerifRecord {
+	d := make([]dastard.RawType, c07PDnsamp)
+	for j := range d {
+		d[j] = dastard.RawType(i*41 + j*3 + 2)
+	}
+	return dastard.VerifRecord{Data: d, TrigFrame: int64(5000 + 7*i), TrigTimeNs: c07T0.UnixNano() + int64(i)*1000000,
+		Presamples: c07PDnpre, VoltsPerArb: 1, SampPeriod: 1e-5, PretrigMean: float64(i), PretrigDelta: 0.5, PulseAverage: 1,
+		PulseRMS: 2, PeakValue: 3, ModelCoefs: []float64{float64(i) + 0.25, float64(i) - 0.5}, ResidualStdDev: 0.125}
+}
+
+func c07PUBCase(r *Rng, hot int) (string, func() string) {
+	all := [][]string{{"ljh22"}, {"ljh3"}, {"off"}, {"ljh22", "off"}, {"ljh22", "ljh3", "off"}, {"ljh3", "ljh22"}}
+	writers := all[r.Intn(len(all))]
+	var ops []string
+	switch hot {
+	case 1: // records, pause (its flush must put them on disk), flush while paused, resume
+		writers = []string{"ljh22", "ljh3", "off"}
+		ops = []string{"P", "P", "S1", "P", "F", "S0", "P", "F"}
+	case 2: // flush while paused after the writer's own data arrived just before
+		writers = []string{"ljh22"}
+		ops = []string{"S1", "S0", "P", "S1", "F", "P", "S0", "P", "S1"}
+	case 3:
+		writers = []string{"off", "ljh3"}
+		ops = []string{"F", "P", "F", "P", "P", "S1", "S1", "F", "S0", "F"}
+	default:
+		n := r.Range(3, 24)
+		for i := 0; i < n; i++ {
+			switch c := r.Intn(100); {
+			case c < 50:
+				ops = append(ops, "P")
+			case c < 65:
+				ops = append(ops, "F")
+			case c < 85:
+				ops = append(ops, "S1")
+			default:
+				ops = append(ops, "S0")
+			}
+		}
+	}
+	in := fmt.Sprintf("PUB writers %d %s scen %s", len(writers), strings.Join(writers, " "), strings.Join(ops, " "))
+	return in, func() string {
+		tst := newC07Pub(writers, "t")
+		ref := newC07Pub(writers, "r")
+		toks := map[string][]string{}
+		seen := map[string]int{}
+		refSeen := map[string]int{}
+		sample := func(name string) {
+			for _, w := range writers {
+				b := tst.read(w)
+				if len(b) < seen[w] {
+					toks[w] = append(toks[w], name+" 0 -") // the file shrank: reported as missing data by the oracle
+					continue
+				}
+				toks[w] = append(toks[w], fmt.Sprintf("%s 0 %s", name, hexs(b[seen[w]:])))
+				seen[w] = len(b)
+			}
+		}
+		nrec := 0
+		for _, op := range ops {
+			switch op {
+			case "P":
+				rec := c07PubRecord(nrec)
+				nrec++
+				before := map[string]int{}
+				for _, w := range writers {
+					before[w] = tst.nwritten(w)
+				}
+				if err := dastard.VerifPublish(tst.dp, []dastard.VerifRecord{rec}); err != nil {
+					return "PANIC publish-returned-error"
+				}
+				acc := 0
+				for _, w := range writers {
+					acc += tst.nwritten(w) - before[w]
+				}
+				if acc == 0 {
+					continue // paused: nothing handed to the writers
+				}
+				if acc != len(writers) {
+					return "PANIC publish-accepted-by-some-writers-only"
+				}
+				// the reference publisher (never paused, flushed after every record) tells the bytes
+				if err := dastard.VerifPublish(ref.dp, []dastard.VerifRecord{rec}); err != nil {
+					return "PANIC reference-publish-error"
+				}
+				ref.dp.Flush()
+				for _, w := range writers {
+					b := ref.read(w)
+					toks[w] = append(toks[w], fmt.Sprintf("R %s 1", hexs(b[refSeen[w]:])))
+					refSeen[w] = len(b)
+				}
+			case "F":
+				tst.dp.Flush()
+				sample("f")
+			case "S1":
+				tst.dp.SetPause(true)
+				sample("f")
+			case "S0":
+				tst.dp.SetPause(false)
+				sample("f")
+			}
+		}
+		for _, w := range writers {
+			tst.remove(w)
+			ref.remove(w)
+		}
+		sample("c")
+		for _, w := range writers {
+			os.Remove(tst.paths[w])
+			os.Remove(ref.paths[w])
 		}
 		var sb strings.Builder
 		fmt.Fprintf(&sb, "D %d", len(writers))
